@@ -18,6 +18,7 @@ import (
 	"github.com/emersion/go-message/textproto"
 	"github.com/emersion/go-msgauth/authres"
 	"github.com/foxcpp/go-mockdns"
+	"github.com/foxcpp/maddy/framework/buffer"
 	"github.com/foxcpp/maddy/framework/exterrors"
 	"github.com/foxcpp/maddy/framework/log"
 	"github.com/foxcpp/maddy/framework/module"
@@ -234,6 +235,36 @@ func c07Reference(c c07Case, where string) c07Expect {
 	return e
 }
 
+// c07Check hands the authentication results to the pipeline the way the SPF and DKIM checks
+// do: as the result of its body stage. When a result is a failure the check reports it with
+// a reason and no action flag - what a check does whose failure action is "ignore" (the
+// default of check.spf fail_action and check.dkim broken_sig_action / no_sig_action).
+type c07Check struct{ results []authres.Result }
+
+func (c *c07Check) CheckStateForMsg(context.Context, *module.MsgMetadata) (module.CheckState, error) {
+	return c, nil
+}
+func (c *c07Check) CheckConnection(context.Context) module.CheckResult      { return module.CheckResult{} }
+func (c *c07Check) CheckSender(context.Context, string) module.CheckResult { return module.CheckResult{} }
+func (c *c07Check) CheckRcpt(context.Context, string) module.CheckResult   { return module.CheckResult{} }
+func (c *c07Check) CheckBody(context.Context, textproto.Header, buffer.Buffer) module.CheckResult {
+	res := module.CheckResult{AuthResult: c.results}
+	for _, r := range c.results {
+		v := authres.ResultValue("")
+		switch x := r.(type) {
+		case *authres.DKIMResult:
+			v = x.Value
+		case *authres.SPFResult:
+			v = x.Value
+		}
+		if v != authres.ResultPass && v != authres.ResultNone && v != "" {
+			res.Reason = errors.New("authentication failed (action: ignore)")
+		}
+	}
+	return res
+}
+func (c *c07Check) Close() error { return nil }
+
 func c07Eval(r *vx.Run, c c07Case) {
 	zones, where := c07Zones(c)
 	exp := c07Reference(c, where)
@@ -259,11 +290,10 @@ func c07Eval(r *vx.Run, c c07Case) {
 	cr.doDMARC = true
 	var applyErr error
 	p := vx.Catch(func() {
-		if err := cr.checkBody(context.Background(), nil, hdr, nil); err != nil {
+		if err := cr.checkBody(context.Background(), []module.Check{&c07Check{results}}, hdr, nil); err != nil {
 			applyErr = err
 			return
 		}
-		cr.mergedRes.AuthResult = append(cr.mergedRes.AuthResult, results...)
 		applyErr = cr.applyResults("mx.verif.example", &hdr)
 		cr.close()
 	})
@@ -353,7 +383,7 @@ var c07Families = []c07Family{
 func TestVerifC07(t *testing.T) {
 	r := vx.Start("C07", "dmarc")
 	defer r.Finish()
-	r.Rule("part A (alignment): From domain in {organizational, subdomain, public suffix} under a single-label and a multi-label public suffix, lower- and upper-case x every multiset of 1-2 DKIM results (values x {exact, subdomain, sibling, public suffix, unrelated} x case, plus look-alike names ending in the organizational domain without a label boundary) x one SPF result (values x MAIL FROM/HELO identity x the same domains) x adkim/aspf in {r,s}^2, with p=reject sp=quarantine at the organizational domain; part B (policy): p x sp x pct x lookup outcome {at domain, at organizational domain, none, multiple, NXDOMAIN, SERVFAIL, nothing at the domain + SERVFAIL at the organizational domain, unrelated TXT at the domain + record at the organizational domain} x From shapes {one, none, two addresses, two fields, an empty field before / after a filled one, group, unparsable} x representative authentication outcomes; every case through the real dmarc.Verifier as driven by the pipeline's checkRunner (checkBody + applyResults); oracle: RFC 7489 reference over the public-suffix list (pass iff aligned pass; action = p / sp; temperror on an alignable identifier under reject => 4xx; temporary lookup failure => 4xx; no single author => never pass). Non-trivial: distinct cases whose reference outcome is pass, refusal or quarantine")
+	r.Rule("part A (alignment): From domain in {organizational, subdomain, public suffix} under a single-label and a multi-label public suffix, lower- and upper-case x every multiset of 1-2 DKIM results (values x {exact, subdomain, sibling, public suffix, unrelated} x case, plus look-alike names ending in the organizational domain without a label boundary) x one SPF result (values x MAIL FROM/HELO identity x the same domains) x adkim/aspf in {r,s}^2, with p=reject sp=quarantine at the organizational domain; part B (policy): p x sp x pct x lookup outcome {at domain, at organizational domain, none, multiple, NXDOMAIN, SERVFAIL, nothing at the domain + SERVFAIL at the organizational domain, unrelated TXT at the domain + record at the organizational domain} x From shapes {one, none, two addresses, two fields, an empty field before / after a filled one, group, unparsable} x representative authentication outcomes; every case through the real dmarc.Verifier as driven by the pipeline's checkRunner (checkBody + applyResults), the SPF/DKIM results arriving as the body-stage result of a scripted check (with a reason and no action flag when a result is a failure, as a check with action 'ignore' reports it); oracle: RFC 7489 reference over the public-suffix list (pass iff aligned pass; action = p / sp; temperror on an alignable identifier under reject => 4xx; temporary lookup failure => 4xx; no single author => never pass). Non-trivial: distinct cases whose reference outcome is pass, refusal or quarantine")
 	r.Assume("golang.org/x/net/publicsuffix on lower-cased names is the ground truth for organizational domains; a temperror on an identifier that cannot align may be answered 4xx or 5xx under p=reject (the statement does not decide)")
 	if rp := r.Replay(); rp != nil {
 		var c c07Case
